@@ -194,7 +194,7 @@ def main():
                      "(same seed twice, then a different course); every logged history is replayed through the Coq model; non-trivial = the "
                      "history contains an override or a write and is distinct by hash of (history, exit)")
     common.ensure_parser()
-    if not c.proofs():
+    if not os.environ.get("VERIF_C14_NOPROOFS") and not c.proofs():  # the knob is a development aid only
         c.finish()
     quick = c.tier == "quick"
     nprog = int(os.environ.get("VERIF_C14_N", 96 if quick else 1500))
@@ -216,15 +216,26 @@ def main():
                    mode2D=bool(p.get("mode2D")), prog=p)
         if f in G.SIM_FAULTS:
             job["sim_fault"] = [G.SIM_FAULTS[f], p["fault_step"]]
+        job["runs"] = plan_runs(rng, p, job["steps"])
+        # reference compilations (fresh process): the first run of each list is made right after a new compilation
+        later = [2, 3, 4, 5]
+        first = later[i % 4]
+        job["ref_plan"] = [[first] + [k for k in reversed(later) if k != first] + [0]]
+        if p.get("top_guard"):
+            job["ref_plan"][0].append(6)
+            job["ref_plan"].append([7, 3])
         jobs.append(job)
     if c.replay:
         body = json.load(open(c.replay))
         if "job" in body.get("case", {}):
             jobs = [body["case"]["job"]]
     probes = G.probes()
+    chists = G.compile_histories(rng, int(os.environ.get("VERIF_C14_NCH", 3 if quick else 12)))
     tmp = os.path.join(common.WORK if os.path.isdir(common.WORK) else "/tmp", "c14")
     os.makedirs(tmp, exist_ok=True)
     env = dict(VERIF_C14_TMP=tmp)
+    if DEBUG:
+        env["VERIF_C14_DEBUG"] = "1"
     nw = max(1, min(WORKERS, len(jobs)))
     chunks = [jobs[i::nw] for i in range(nw)]
 
@@ -236,17 +247,29 @@ def main():
         k0, ch = kch
         seq = [dict(name="state0", state=True)]
         npb = 0
+        mine = [h for i, h in enumerate(chists) if i % nw == k0]
         for k, j in enumerate(ch):
             seq.append({k2: v for k2, v in j.items() if k2 != "prog"})
             if k % 4 == 3 or k == len(ch) - 1:
                 pr = probes[(k0 + npb) % len(probes)]
                 npb += 1
                 seq.append(dict(pr, name=f"{pr['name']}-after-{j['name']}"))
+            if mine and (k % 5 == 2 or k == len(ch) - 1):
+                seq.append(mine.pop())
+        return common.run_impl("impl_c14.py", dict(programs=seq), timeout=7000, extra_env=env)["results"]
+
+    def reference(kch):
+        # the later-use oracle for histories: one fresh process per chunk; every distinct run of every history is made
+        # there from a NEW compilation; the compile histories with a module name of its own per operation
+        k0, ch = kch
+        seq = [dict({k2: v for k2, v in j.items() if k2 != "prog"}, ref=True) for j in ch if j["prog"]["fault"] not in G.COMPILE_FAULTS]
+        seq += [G.rename_for_reference(h) for i, h in enumerate(chists) if i % nw == k0]
         return common.run_impl("impl_c14.py", dict(programs=seq), timeout=7000, extra_env=env)["results"]
 
     with cf.ThreadPoolExecutor(WORKERS) as ex:
-        fut_ref = [ex.submit(fresh, pr) for pr in probes]
-        fut_work = [ex.submit(work, kc) for kc in enumerate(chunks)]
+        fut_ref = [ex.submit(timed("probe-ref", fresh), pr) for pr in probes]
+        fut_work = [ex.submit(timed("work", work), kc) for kc in enumerate(chunks)]
+        fut_hist = [ex.submit(timed("hist-ref", reference), kc) for kc in enumerate(chunks)]
         refs = {}
         state0 = None
         for pr, fu in zip(probes, fut_ref):
@@ -259,7 +282,17 @@ def main():
         results = []
         for fu in fut_work:
             results += fu.result()
+        href, chref = {}, {}
+        for fu in fut_hist:
+            for r in fu.result():
+                if "crash" in r:
+                    c.violation("harness", "reference driver crashed", dict(crash=r["crash"]), no_input=True)
+                elif "ref" in r:
+                    href[r["name"]] = r["ref"]
+                else:
+                    chref[r["name"]] = r
     by = {j["name"]: j for j in jobs}
+    chby = {h["name"]: h for h in chists}
     defs, names, case_info = [], [], {}
     last_job = None
     for r in results:
@@ -269,6 +302,9 @@ def main():
         if r["name"] == "state0":
             if r["state"] != state0:
                 c.violation("harness", "two fresh processes start in different states", dict(diff=state_diff(r["state"], state0)), no_input=True)
+            continue
+        if "ops" in r:
+            check_chist(c, chby[r["name"]], r, chref.get(r["name"]), state0, last_job)
             continue
         if "probe" in r:
             pname = r["name"].split("-after-")[0]
@@ -331,6 +367,7 @@ def main():
         if not r["rerun_equal"] or not r["rerun_log_equal"] or r["rerun_outcome"] != r["outcome"] or sc(r["after2"]) != sc(r["before"]):
             c.violation("rerun", "re-running the same scene with the same seed gives a different result",
                         dict(job=job, outcome=r["outcome"], rerun=r["rerun_outcome"], equal=r["rerun_equal"], log_equal=r["rerun_log_equal"]))
+        check_history(c, job, r, href.get(job["name"]), state0)
         # ---- model replay: Begin, history, Finish (first run and third run)
         nm = r["name"]
         m1 = to_model(log, r["before"], r["after"])
@@ -396,6 +433,118 @@ def main():
         "CPython semantics of try/finally and generators",
     ]
     c.finish()
+
+
+TIMESTEPS = [1, 0.5, 0.25, 2]
+DEBUG = bool(os.environ.get("VERIF_C14_DEBUG"))
+
+
+def timed(label, f):
+    def g(*a):
+        import time
+        t = time.time()
+        try:
+            return f(*a)
+        finally:
+            if DEBUG:
+                print(f"DBG {label} {time.time() - t:.1f}s", file=sys.stderr)
+    return g
+START_GUARD = ("rejected", "exception:PreconditionViolation", "exception:InvariantViolation")
+
+
+def check_history(c, job, r, ref, state0):
+    """later-use oracle, run by run: the k-th simulation made from one compiled Scenario object (fresh scenes and the same
+    scene again, other timesteps / maxSteps / guard outcomes) == the same (program, scene seed, options) simulated after
+    a fresh compilation in another process"""
+    runs, hist = job["runs"], r.get("hist") or []
+    if ref is None or len(hist) != len(runs):
+        c.violation("harness", "history without reference", dict(job=job, nhist=len(hist)), no_input=True)
+        return
+    seen_ts = set()
+    for k, (spec, h) in enumerate(zip(runs, hist)):
+        cands = ref.get(json.dumps(spec, sort_keys=True)) or []
+        fresh = next((x["res"] for x in cands if x["fresh"]), None)
+        others = [x["res"] for x in cands if not x["fresh"]]
+        if not cands:
+            c.violation("harness", "run without reference", dict(job=job, run_index=k), no_input=True)
+            continue
+        c.hist("history-reference:" + ("fresh-compilation" if fresh is not None else "other-history"))
+        if fresh is None:
+            fresh = others[0]
+        if any(o != fresh for o in others):
+            c.violation("history", "the same simulation gives different results at two positions of the reference histories",
+                        dict(job=job, run_index=k, run=spec, got=others, fresh=fresh, prev_top_guard_violation=False, in_reference=True))
+        c.cov["history_runs_compared"] = c.cov.get("history_runs_compared", 0) + 1
+        c.hist("history-run:" + ("same-scene" if spec["scene"] == 0 else "fresh-scene") + (":guard-false" if spec.get("flag") else ""))
+        c.hist(f"history-timestep:{spec['ts']}")
+        if k and spec["ts"] not in seen_ts:
+            c.hist("history-run-with-new-timestep")
+        seen_ts.add(spec["ts"])
+        if h.get("outcome"):
+            c.hist("history-outcome:" + h["outcome"])
+        prev_guard = k > 0 and bool(runs[k - 1].get("flag")) and hist[k - 1].get("outcome") in START_GUARD and hist[k - 1].get("nlog") == 0
+        core = {k2: v for k2, v in h.items() if k2 not in ("redo", "after_start_guard_violation", "scene_changed")}
+        if core != fresh:
+            if DEBUG:
+                if core.get("blob") and fresh.get("blob"):
+                    b1, b2 = core.pop("blob"), fresh.pop("blob")
+                    i0 = next((i for i in range(min(len(b1), len(b2))) if b1[i] != b2[i]), 0)
+                    print("DBG blobdiff", b1[max(0, i0 - 150):i0 + 100], "|||", b2[max(0, i0 - 150):i0 + 100], file=sys.stderr)
+                print("DBG history", job["name"], k, spec, core, fresh, prev_guard, job["prog"].get("top_limit"), job["prog"].get("top_guard"), job["prog"]["fault"], file=sys.stderr)
+            c.violation("history", f"simulation no. {k + 1} made from one compiled scenario differs from the same simulation after a fresh compilation",
+                        dict(job=job, run_index=k, run=spec, got=core, fresh=fresh, earlier=[[s2, h2.get("outcome"), h2.get("time")] for s2, h2 in zip(runs[:k], hist[:k])],
+                             prev_top_guard_violation=prev_guard, top_limit=job["prog"].get("top_limit"), top_guard=job["prog"].get("top_guard")))
+        noblob = lambda x: {k2: v for k2, v in x.items() if k2 != "blob"} if isinstance(x, dict) else x
+        if h.get("redo") is not None and noblob(h["redo"]) != noblob(fresh):
+            c.violation("history", "simulation after re-compilation differs from the same simulation in a fresh process",
+                        dict(job=job, run_index=k, run=spec, got=h["redo"], fresh=fresh, prev_top_guard_violation=False, recompiled=True))
+        if h.get("scene_changed"):
+            c.violation("scene-changed", "a property of a scene object reads differently after a later simulation of the history",
+                        dict(job=job, run_index=k, run=spec))
+    if r.get("veneer_after_hist") != state0:
+        d = state_diff(r.get("veneer_after_hist"), state0)
+        c.violation("veneer", "interpreter global state not reset after a history of simulations", dict(job=job, diff=d, diff_json=json.dumps(d, sort_keys=True)))
+
+
+def check_chist(c, h, r, ref, state0, last_job):
+    """compile history: every compilation (after compilations that imported the same helper module and then failed)
+    == the same compilation where no other compilation can have left anything (own module names, other process)"""
+    if ref is None or len(ref["ops"]) != len(r["ops"]):
+        c.violation("harness", "compile history without reference", dict(name=h["name"]), no_input=True)
+        return
+    canon = lambda x: json.loads(re.sub(G.CH_MOD + r"\d+x", G.CH_MOD, json.dumps(x)))
+    for k, (op, got, fr) in enumerate(zip(h["ops"], r["ops"], ref["ops"])):
+        c.count(("chist", op["what"], k), nontrivial=True)
+        c.hist("compile-history-op:" + op["what"].split(":hp")[0])
+        failed = "error" in got["res"]
+        if failed != bool(op.get("expect_fail")):
+            c.violation("harness", "compile-history operation did not behave as planned", dict(op=op, got=got["res"]), no_input=True)
+        if got["res"] != canon(fr["res"]):
+            c.violation("compile-history", f"compilation no. {k + 1} of a process differs from the same compilation in a fresh process",
+                        dict(history=h["name"], op_index=k, op=op, got=shorten(got["res"]), fresh=shorten(canon(fr["res"])),
+                             earlier=[o["what"] for o in h["ops"][:k]], ops=h["ops"][:k + 1], after_job=last_job and last_job["name"]))
+        if got["state"] != state0:
+            d = state_diff(got["state"], state0)
+            c.violation("veneer", "interpreter global state (ScenicModules in sys.modules, veneer, ...) differs from start-up after a compilation of a compile history",
+                        dict(history=h["name"], op_index=k, op=op, diff=d, diff_json=json.dumps(d, sort_keys=True), earlier=[o["what"] for o in h["ops"][:k]]))
+
+
+def plan_runs(rng, prog, steps):
+    """the history of simulations made from ONE compiled Scenario object: runs 1-2 the first scene twice with the same seed
+    and options, run 3 the first scene taking another course (RUN() = 1) with another timestep and maxSteps, then a fresh
+    scene, the first scene again (other timestep each), a second fresh scene; programs with a top-level guard then get a run
+    in which the guard is false when the simulation starts, followed by a run in which it holds again"""
+    ts = rng.sample(TIMESTEPS, 4)
+    big = lambda: rng.choice([steps, rng.randint(3, 7), rng.randint(8, 14)])
+    runs = [dict(scene=0, run=0, seed_off=1, ts=ts[0], steps=steps), dict(scene=0, run=0, seed_off=1, ts=ts[0], steps=steps),
+            dict(scene=0, run=1, seed_off=2, ts=ts[1], steps=big()),
+            dict(scene=1, run=0, seed_off=3, ts=ts[2], steps=big()),
+            dict(scene=0, run=0, seed_off=1, ts=ts[3], steps=big()),
+            dict(scene=2, run=rng.randint(0, 1), seed_off=4, ts=ts[0], steps=big())]
+    if prog.get("top_guard"):
+        runs.append(dict(scene=rng.choice([0, 1, 3]), run=0, seed_off=5, ts=rng.choice(TIMESTEPS), steps=big(), flag=1))
+        runs.append(dict(scene=rng.choice([0, 1]), run=0, seed_off=6, ts=rng.choice(TIMESTEPS), steps=big()))
+    return runs
 
 
 def remap(ops, delta):
